@@ -97,6 +97,7 @@ pub fn cases(o: &mut Outcome, rng: &mut Rng, thorough: bool) {
     parts::lex_cases(o, rng, thorough);
     if std::env::var_os("OPTIN_NO_E2E").is_none() {
         crate::optin_e2e::cases(o, rng, thorough);
+        crate::optin_e2e::probes(o);
     }
 }
 
